@@ -51,12 +51,13 @@ def lookup(eng, call, k, target):
         if target.trait:
             names.append(norm(target.trait.split("<")[0]) + "::" + target.name.split("::")[-1])
     call["norm_names"] = names
+    if target is not None and not target.derived and target.name not in eng.opaque and target.kind != "Ctor":
+        # a hand-written workspace body is analysed, never modelled (unless a model names it explicitly)
+        return REG.get(target.name)
     for n in names:
         f = REG.get(n)
         if f is not None:
             return f
-    if target is not None and not target.derived and target.name not in eng.opaque:
-        return None   # inline the workspace body
     for n in names:
         for rx, f in PATTERNS:
             if rx.search(n):
